@@ -1,6 +1,5 @@
 (* C04 - Frame-pointer fallback and leaf assumption when no unwind info applies.
-   (DWARF / no-data modules here; the Mach-O and PE reasons are in Props/C04 parts below as their
-   models land.) *)
+   (no module, no data, DWARF gaps, PE; the Mach-O reason - outside __unwind_info - joins with C02.) *)
 From FH Require Import Consts Word X86 A64 DwarfRow Cfi Unwinder X86Dwarf A64Dwarf DwarfCb X86Unw A64Unw
   X86Exec A64Exec CfiFacts X86Walk A64Walk FpChain.
 Open Scope N_scope.
@@ -67,6 +66,23 @@ Theorem C04_uncovered_a64_caller_is_fp : forall rg m r rg',
   aexec ANoOpIfFirstFrameOtherwiseFp false rg m = (r, rg').
 Proof. exact a_uncovered_caller_is_fp. Qed.
 Print Assumptions C04_uncovered_a64_caller_is_fp.
+
+(* --- reasons 5/6 (PE): no function-table entry -> frameless leaf in EVERY frame (functions without
+   unwind data do not touch rsp or non-volatile registers); PE module on aarch64 -> frame pointer --- *)
+Theorem C04_no_pdata_entry_is_leaf_x86 : forall u a x rg m md rel pe,
+  lookup_address a = Ok x -> find_module mdata (mods _ u) x = Ok (Some (md, rel)) ->
+  mdat md = MPe pe -> Pe.pe_lookup (Pe.pe_funcs pe) rel None = None ->
+  let o := unwind_frame_x u (cache_new rule) a rg m in
+  (o_res _ _ o, o_regs _ _ o) = exec_x JustReturn (negb (is_ra a)) rg m.
+Proof. exact no_pdata_entry_is_leaf_x86. Qed.
+Print Assumptions C04_no_pdata_entry_is_leaf_x86.
+
+Theorem C04_pe_on_aarch64_uses_fp : forall u a x rg m md rel,
+  lookup_address a = Ok x -> find_module amdata (mods _ u) x = Ok (Some (md, rel)) -> mdat md = AMPe ->
+  let o := unwind_frame_a u (cache_new arule) a rg m in
+  (o_res _ _ o, o_regs _ _ o) = aexec AUseFramePointer (negb (is_ra a)) rg m.
+Proof. exact pe_on_aarch64_uses_fp. Qed.
+Print Assumptions C04_pe_on_aarch64_uses_fp.
 
 (* --- what the two conventions compute --- *)
 Theorem C04_fp_rule_x86 : forall first rg m ra nb,
